@@ -804,6 +804,19 @@ func c04OpenRejects(c *Ctx, m *Module, rule string) {
 		if k, isC := v.(*ssa.Const); !isC || !k.IsNil() {
 			continue
 		}
+		// refusals after the file was mapped are the header verification (c09HeaderVerified decides
+		// when openMapped may succeed); this rule is about the file being established
+		mapped := false
+		for _, cs := range callsIn(om) {
+			if cl, isCall := cs.(*ssa.Call); isCall && ex.passes(cs) {
+				if tup, isT := cl.Type().(*types.Tuple); isT && tup.Len() == 2 && strings.Contains(tup.At(0).Type().String(), "mmap.Data") {
+					mapped = true
+				}
+			}
+		}
+		if mapped {
+			continue
+		}
 		n++
 		why := ""
 		for _, f := range ex.facts {
